@@ -1,0 +1,37 @@
+//go:build verif
+
+package runner
+
+// Exporting shims for the C13 verification harness (no behaviour).
+
+import (
+	"lunar/engine/config"
+	sharedConfig "lunar/shared-model/config"
+)
+
+func VerifC13GetRemedies(
+	method string,
+	url string,
+	policyTree *config.EndpointPolicyTree,
+	globalPolicies *sharedConfig.Global,
+) []config.ScopedRemedy {
+	return getRemedies(method, url, policyTree, globalPolicies)
+}
+
+func VerifC13GetDiagnoses(
+	method string,
+	url string,
+	policyTree *config.EndpointPolicyTree,
+	globalDiagnoses []sharedConfig.Diagnosis,
+) []*config.ScopedDiagnosis {
+	return getDiagnoses(method, url, policyTree, globalDiagnoses)
+}
+
+func VerifC13ShouldDiagnose(
+	method string,
+	url string,
+	policyTree *config.EndpointPolicyTree,
+	globalPolicies *sharedConfig.Global,
+) bool {
+	return shouldDiagnose(method, url, policyTree, globalPolicies)
+}
